@@ -33,6 +33,15 @@ func c16Size(r *vf.Rand, max int) int {
 		classes = append(classes, 65535, 65536)
 	}
 	classes = append(classes, max)
+	if max >= 4100 && r.Chance(1, 5) {
+		// just below, at and just above a power of two: where a buffer of that capacity is exactly full, with and
+		// without the 2-14 header bytes
+		n := (1 << r.Range(12, 16)) - r.Intn(20) + 4
+		if n > max {
+			n = 4096 - r.Intn(20) + 4
+		}
+		return n
+	}
 	if r.Chance(1, 3) {
 		return r.Intn(min(max, 3000) + 1)
 	}
@@ -49,7 +58,7 @@ func runC16(c *vf.Case) {
 	if s == nil {
 		return
 	}
-	max := []int{125, 1000, 1000, 70000}[r.Intn(4)]
+	max := []int{125, 1000, 5000, 70000}[r.Intn(4)]
 	if r.Chance(1, 25) {
 		max = websocket.DefaultMaxMessageSize
 	}
@@ -161,13 +170,22 @@ func runC16(c *vf.Case) {
 					} else if !closed && s.State() == websocket.StateActive {
 						// a second write-type call while the first is held: its frame goes after the held one, once
 						overlaps++
-						if r.Bool() {
+						if k2 := r.Intn(3); k2 == 0 {
 							n := c16Size(r, max)
 							payload := r.Bytes(n)
 							w2 := fmt.Sprintf("(while the write is held by the transport) AsyncWrite %d bytes", n)
 							c.Logf("  %s", w2)
 							expect = append(expect, c16Expect{wsref.OpBinary, true, payload, w2})
 							s.AsyncWrite(payload, websocket.TypeBinary, func(e error) { secondCalls++; secondErr = e })
+						} else if k2 == 1 {
+							n := c16Size(r, max)
+							payload := r.Bytes(n)
+							w2 := fmt.Sprintf("(while the write is held by the transport) AsyncWriteFrame %d bytes", n)
+							c.Logf("  %s", w2)
+							expect = append(expect, c16Expect{wsref.OpBinary, true, payload, w2})
+							f2 := s.AcquireFrame()
+							f2.SetFIN().SetBinary().SetPayload(payload)
+							s.AsyncWriteFrame(f2, func(e error) { secondCalls++; secondErr = e })
 						} else {
 							code := []uint16{1000, 1001, 3000}[r.Intn(3)]
 							reason := string(asciiBytes(r, r.Intn(20)))
